@@ -206,7 +206,8 @@ SkipVariants(fs, calls00) ==
 NonSkip(calls) == Len(SelectSeq(calls, LAMBDA e : e[2].c # "skip"))
 
 VariantTerms(ty, i) ==
-  LET v == ty.vars[i]  hd == [name |-> ty.name, idx |-> i - 1, variant |-> v.vname] IN
+  LET v == ty.vars[i]
+      hd == [name |-> ty.name, idx |-> IF "ridx" \in DOMAIN v THEN v.ridx ELSE i - 1, variant |-> v.vname] IN
   CASE v.vk = "unit" -> {[c |-> "unit_variant"] @@ hd}
     [] v.vk = "newtype" -> {[c |-> "newtype_variant", v |-> x] @@ hd : x \in TermsOf(v.of, FALSE)}
     [] v.vk = "tuple" -> {[c |-> "tuple_variant", items |-> q] @@ hd : q \in ElemTuples(v.elems)}
@@ -238,6 +239,7 @@ TermsOf(ty, full) ==
          ELSE UNION {{[c |-> "struct", name |-> ty.name, len |-> NonSkip(q), fields |-> q] : q \in SkipVariants(ty.flds, q0)}
                      : q0 \in FieldTuples(ty.flds)}
     [] ty.y = "enum" -> UNION {VariantTerms(ty, i) : i \in 1..Len(ty.vars)}
+    [] ty.y = "rec" -> {}        \* a recursive occurrence below the unrolling depth: no values
 
 (***************************************************************************)
 (* The universe of types explored for C16.                                 *)
